@@ -24,6 +24,11 @@ Outcome(mode, budget) ==
     IF cond = "nosupply" THEN "PipeflowNotConverged"
     ELSE IF mode = "heat" /\ ~hydflag THEN "usage_error"
     ELSE IF budget = "starved" THEN "PipeflowNotConverged"
+    (* stage-specific limits: a stage is starved only if the mode runs that stage (hydraulics and sequential run the hydraulic   *)
+    (* stage, heat and sequential the thermal stage, bidirectional the coupled stage with its own limit)                         *)
+    ELSE IF budget = "hydstarved" /\ mode \in {"hydraulics", "sequential"} THEN "PipeflowNotConverged"
+    ELSE IF budget = "thermstarved" /\ mode \in {"heat", "sequential"} THEN "PipeflowNotConverged"
+    ELSE IF budget = "bistarved" /\ mode = "bidirectional" THEN "PipeflowNotConverged"
     ELSE "returned"
 
 Run(mode, budget, method, tols, mx) ==
